@@ -61,7 +61,10 @@ def main():
     work = tempfile.mkdtemp(prefix="c20-", dir=C.ensure_dir(os.path.join(C.CACHE, "tmp")))
     rep.rule("for each schema: a dry run counts the N output-directed calls (mkdir, fopen, write, writev); then one run "
              "per k in 1..N x kind in {ENOSPC, EACCES, EIO, genuine short write, short write whose retry fails with "
-             "ENOSPC}; plus determinism runs (second fresh run, run over a populated directory, ASan/UBSan build). An "
+             "ENOSPC}; plus determinism runs (second fresh run, runs over directories populated with longer / truncated / empty / "
+             "same-length stale files, a re-run after every failed run, invocation variants - relative paths from another "
+             "cwd, nested new output directory, trailing slash, other schema file name, other locale/TZ/HOME - and the "
+             "ASan/UBSan build). An "
              "evaluation is one sbeppc execution; distinct_nontrivial counts distinct (schema, k, kind) runs in which the "
              "shim really disturbed a call (logged INJECTED).")
     try:
@@ -127,6 +130,30 @@ def main():
                                   "from a fresh compile (first: %s)" % (name, variant, rcv, len(bad), bad[:1]),
                                   {"schema": name, "schema_xml": xml, "variant": variant, "differing": bad[:10]})
                 rep.count("files_compared", len(ref))
+            # the way sbeppc is invoked must not show in the output: relative paths from another working directory, an
+            # output directory that does not exist yet (nested), a trailing slash, another schema file name, a
+            # different environment (locale, TZ, HOME, TMPDIR)
+            os.makedirs(os.path.join(sd, "cwd", "sub"))
+            shutil.copy(xmlp, os.path.join(sd, "cwd", "sub", "Other Name.v2.xml"))
+            inv = [("relative-paths", [rel, "--output-dir", "../out-rel", "sub/Other Name.v2.xml"], os.path.join(sd, "cwd"),
+                    os.path.join(sd, "out-rel"), None),
+                   ("nested-new-output-dir", [rel, "--output-dir", os.path.join(sd, "new", "a", "b"), xmlp], None, os.path.join(sd, "new", "a", "b"), None),
+                   ("trailing-slash", [rel, "--output-dir", os.path.join(sd, "slash") + "/", xmlp], None, os.path.join(sd, "slash"), None),
+                   ("environment", [rel, "--output-dir", os.path.join(sd, "envout"), xmlp], "/", os.path.join(sd, "envout"),
+                    {"LC_ALL": "tr_TR.UTF-8", "LANG": "de_DE.UTF-8", "TZ": "Pacific/Kiritimati", "HOME": "/nonexistent", "TMPDIR": "/nonexistent",
+                     "COLUMNS": "20", "NO_COLOR": "1", "TERM": "dumb"})]
+            for iname, cmd, cwd, od, env_ in inv:
+                rci, oi, _, toi = C.run(cmd, timeout=120, cwd=cwd, env=env_)
+                rep.evaluation()
+                ti = read_tree(od) if os.path.isdir(od) else {}
+                if rci != 0 or ti != ref:
+                    badf = sorted(k for k in set(ref) | set(ti) if ref.get(k) != ti.get(k))
+                    rep.violation("nondeterministic-output", "invocation-" + iname,
+                                  "%s: invoked as %s (cwd=%s): exit %s, %d file(s) differ from the reference run (first: %s): %s" % (
+                                      name, iname, cwd, rci, len(badf), badf[:1], oi.decode(errors="replace")[-200:]),
+                                  {"schema": name, "schema_xml": xml, "command": cmd, "cwd": cwd, "env": env_, "differing": badf[:10]})
+                rep.count("files_compared", len(ref))
+                rep.count("invocation_variants")
             d4 = os.path.join(sd, "san")
             os.makedirs(d4)
             rc4, out4, _ = run_sbeppc(san, xmlp, d4, env=build.san_env())
